@@ -1,3 +1,70 @@
-From Flodym Require Import Base.ND.
-Theorem placeholder : True. Proof. exact I. Qed.
-Print Assumptions placeholder.
+(* C18 — systems built from definitions and files match what was defined.  Statements only.
+   PARTIAL: the assembly logic is proved; reading CSV / Excel files is pandas' runtime and is tied
+   to the model by the correspondence on real temporary files. *)
+From Coq Require Import List Arith Bool.
+Import ListNotations.
+From Flodym Require Import Base.Env Model.Dims Model.Build Proofs.C18Proofs.
+
+Theorem C18_processes_numbered_in_listed_order :
+  forall se names ps, make_processes se names = Ok ps ->
+  ps = combine names (seq 0 (length names)) /\ (names <> [] -> hd 0 names = se).
+Proof. exact processes_numbered. Qed.
+Print Assumptions C18_processes_numbered_in_listed_order.
+
+Theorem C18_anything_but_sysenv_first_is_refused :
+  forall se n0 r, n0 <> se -> make_processes se (n0 :: r) = Err.
+Proof. exact sysenv_first_or_refused. Qed.
+Print Assumptions C18_anything_but_sysenv_first_is_refused.
+
+(* for flows and stocks alike (any definition type D, object type V, naming key):
+   distinct names => exactly one object per definition, in definition order *)
+Theorem C18_one_object_per_definition :
+  forall (D V : Type) (key : V -> nat) (f : D -> res V) defs vs,
+  mapM f defs = Ok vs -> NoDup (map key vs) -> dict_fold key f defs = Ok vs.
+Proof. exact dict_fold_spec. Qed.
+Print Assumptions C18_one_object_per_definition.
+
+Theorem C18_unbuildable_definition_refuses_the_system :
+  forall (D V : Type) (key : V -> nat) (f : D -> res V) defs d,
+  In d defs -> f d = Err -> dict_fold key f defs = Err.
+Proof. exact dict_fold_refuses. Qed.
+Print Assumptions C18_unbuildable_definition_refuses_the_system.
+
+Theorem C18_flow_as_defined :
+  forall procs dims naming fd fo, flow_of procs dims naming fd = Ok fo ->
+  fo_from fo = fd_from fd /\ fo_to fo = fd_to fd
+  /\ fo_name fo = (match fd_override fd with Some n => n | None => naming (fd_from fd) (fd_to fd) end)
+  /\ get_subset dims (map KLetter (fd_dims fd)) = Ok (fo_dims fo)
+  /\ assoc (fd_from fd) procs <> None /\ assoc (fd_to fd) procs <> None.
+Proof. exact flow_of_spec. Qed.
+Print Assumptions C18_flow_as_defined.
+
+Theorem C18_stock_as_defined_including_solver :
+  forall procs dims sd so, stock_of true procs dims sd = Ok so ->
+  so_name so = sd_name sd /\ so_process so = sd_process sd /\ so_time so = sd_time sd
+  /\ so_class so = sd_class sd /\ so_lifetime so = sd_lifetime sd
+  /\ (sd_class sd = 2 -> so_solver so = Some (sd_solver sd))
+  /\ get_subset dims (map KLetter (sd_dims sd)) = Ok (so_dims so)
+  /\ hd 0 (letters (so_dims so)) = sd_time sd.
+Proof. exact stock_of_spec. Qed.
+Print Assumptions C18_stock_as_defined_including_solver.
+
+Theorem C18_time_anywhere_but_first_is_refused :
+  forall procs dims sd ds l0 r fwd,
+  get_subset dims (map KLetter (sd_dims sd)) = Ok ds -> letters ds = l0 :: r -> l0 <> sd_time sd ->
+  stock_of fwd procs dims sd = Err.
+Proof. exact stock_refuses_time_not_first. Qed.
+Print Assumptions C18_time_anywhere_but_first_is_refused.
+
+Theorem C18_undefined_process_is_refused :
+  forall procs dims naming fd, assoc (fd_from fd) procs = None \/ assoc (fd_to fd) procs = None ->
+  flow_of procs dims naming fd = Err.
+Proof. exact flow_refuses_undefined_process. Qed.
+Print Assumptions C18_undefined_process_is_refused.
+
+Theorem C18_invalid_definition_is_refused :
+  forall defined flows stocks params sysenv dims naming pnames fwd,
+  definition_ok defined flows stocks params = false -> defined = letters dims ->
+  build fwd sysenv dims naming pnames flows stocks params = Err.
+Proof. exact definition_refused. Qed.
+Print Assumptions C18_invalid_definition_is_refused.
